@@ -57,6 +57,10 @@ def cases(tier, seed):
                         yield dict(kind="median_distance", sub=list(sub), k=kn, proj=proj, shape=shape)
                         if shape == "1d":
                             yield dict(kind="median_distance", sub=list(sub), k=kn, proj=proj, shape=shape, rep=("int_e", "int_n", "int")[(kn + len(sub)) % 3])
+            if k == 3 and sub == (0, 1, 2):
+                # k x (number of query points) beyond 2^20 and 2^21 (seed C15-12: queries processed in chunks)
+                for kn, shape in ((12, [300, 350]), (2, [1031, 1021]), (7, [1, 320000])):
+                    yield dict(kind="knn_big", k=kn, shape=shape)
             if k <= (3 if tier == "quick" else 4):
                 for proj in (False, True, 2, 3):
                     for form in ("array2d", "array1d", "grid1", "grid2"):
@@ -135,6 +139,45 @@ def run(case, rec):
         rec.check(raised(got) and isinstance(got.exc, ValueError), "distance_mask without coordinates or grid must raise")
         got = call(rec, vd.distance_mask, (np.array([0.0, 1.0]), np.array([0.0, 1.0])), 1.0, coordinates=(np.zeros((2, 2)), np.zeros((3, 2))))
         rec.check(raised(got) and isinstance(got.exc, ValueError), "distance_mask with mismatched coordinate shapes must raise")
+        return
+    if kind == "knn_big":
+        k = case["k"]
+        # 40 data points in general position (no two query-to-data distances tie), queries on a fine grid
+        i = np.arange(40, dtype=float)
+        de = 10.0 * np.modf(i * 0.6180339887498949)[0] + 0.013 * i
+        dn = 7.0 * np.modf(i * 0.7548776662466927)[0] - 0.007 * i
+        dv = 100.0 + 3.0 * i - 0.5 * (i % 7) ** 2
+        est = vd.KNeighbors(k=k)
+        if raised(call(rec, est.fit, (de, dn), dv)):
+            return rec.check(False, "KNeighbors.fit raised")
+        qe, qn = np.meshgrid(np.linspace(-0.5, 10.7, case["shape"][1]), np.linspace(-0.3, 7.4, case["shape"][0]))
+        got = call(rec, est.predict, (qe, qn))
+        if raised(got):
+            return rec.check(False, "KNeighbors.predict raised %r" % (got,))
+        got = np.asarray(got)
+        if not rec.check(got.shape == qe.shape, "prediction shape %s != query shape %s" % (got.shape, qe.shape)):
+            return
+        nbad = 0
+        first = None
+        ntie = 0
+        for r0 in range(0, qe.size, 50000):
+            fe, fn = qe.ravel()[r0:r0 + 50000], qn.ravel()[r0:r0 + 50000]
+            d2 = (fe[:, None] - de[None, :]) ** 2 + (fn[:, None] - dn[None, :]) ** 2
+            order = np.argsort(d2, axis=1)
+            ds_ = np.take_along_axis(d2, order, axis=1)
+            unsure = (ds_[:, k] - ds_[:, k - 1]) <= 1e-9 * ds_[:, k]       # k-th and (k+1)-th neighbour practically tied: not compared
+            want = dv[order[:, :k]].mean(axis=1)
+            wrong = (np.abs(got.ravel()[r0:r0 + 50000] - want) > 1e-9 * np.abs(want)) & ~unsure
+            ntie += int(unsure.sum())
+            if wrong.any() and first is None:
+                j = int(np.argmax(wrong))
+                first = (float(fe[j]), float(fn[j]), float(got.ravel()[r0 + j]), float(want[j]))
+            nbad += int(wrong.sum())
+        rec.count("queries", int(qe.size))
+        rec.count("big_queries_not_compared_near_ties", ntie)
+        rec.check(nbad == 0, "KNeighbors(k=%d) on a %s query grid: %d of %d predictions are not the mean of the %d nearest data values (first: query (%r, %r) predicts %r, expected %r)"
+                  % ((k, case["shape"], nbad, qe.size, k) + (first if first else (0, 0, 0, 0))))
+        rec.cls("knn_big/k=%d" % k)
         return
     pts = [PTS[i] for i in case["sub"]]
     npts = len(pts)
@@ -218,7 +261,11 @@ def run(case, rec):
         kw = dict(k_nearest=k)
         if proj:
             kw["projection"] = _projfn(proj)
-        got = call(rec, vd.median_distance, (rs(e), rs(n)), **kw)
+        cm = (rs(e), rs(n))
+        if (k + len(pts)) % 2:
+            # appended vertical / time coordinates are ignored: distances are horizontal (seed C15-11)
+            cm = cm + (rs(np.arange(npts, dtype=float) * 37.0 + 5.0), rs(-np.arange(npts, dtype=float) ** 2))
+        got = call(rec, vd.median_distance, cm, **kw)
         if raised(got):
             return rec.check(False, "median_distance raised %r" % (got,))
         got = np.asarray(got)
